@@ -14,6 +14,17 @@ pub const POPULATION_LIMIT: f64 = 100_000.0;
 pub fn cdf_tol_t(dof: f64) -> f64 {
     8.0 * (2e-14 + 1.5e-15 * dof * dof)
 }
+/// The envelope at a given critical value: statrs recovers t from x = dof/(dof + t^2), i.e. t^2 carries an
+/// absolute error of about dof * eta with eta the relative tolerance of its incomplete-beta inversion. For
+/// probabilities close to 1/2 (|t| << 1) this dominates: the error of t is min(dof eta / (2|t|), sqrt(dof eta))
+/// and the CDF error is the density (<= 0.4) times that. Measured through C06 (levels within 1e-5 of 1/2):
+/// 9e-12 at dof 6, 2e-10 at dof 94, 5e-7 at dof 1342, 5e-6 at dof 9744, consistent with eta ~ 1e-14;
+/// eta = 4e-13 is used. At t = 0 exactly the quantile is exact.
+pub fn cdf_tol_t_at(dof: f64, c: f64) -> f64 {
+    let eta = 4e-13;
+    let extra = if c == 0.0 { 0.0 } else { 0.4 * (dof * eta / (2.0 * c.abs())).min((dof * eta).sqrt()) };
+    cdf_tol_t(dof) + extra
+}
 pub const CDF_TOL_Z: f64 = 2e-15;
 
 /// Reference critical value for (dof, conf) and its allowance Δc.
@@ -27,7 +38,7 @@ pub fn crit_t(dof: f64, conf: &Conf) -> Crit {
     let p = conf.target();
     let c = rm::t_quantile(dof, p);
     let dens = rm::t_pdf(dof, c);
-    Crit { c, dc: cdf_tol_t(dof) / dens + 4e-16 * c.abs(), normal: false }
+    Crit { c, dc: cdf_tol_t_at(dof, c) / dens + 4e-16 * c.abs(), normal: false }
 }
 pub fn crit_z(conf: &Conf) -> Crit {
     let p = conf.target();
